@@ -39,14 +39,17 @@ META = {
     "explanation": (
         "All rules analyse parsers/directives.py after *inlining* its private helpers: single-exit helpers at `x = helper(...)` call sites (parameters "
         "bound, locals renamed, `return e` turned into the assignment of the call statement) and helpers with any number of returns in tail position "
-        "(`return helper(...)`); line numbers kept, nothing executed, so a function split into "
+        "(`return helper(...)`), and pure predicate helpers (straight-line string tests) substituted as expressions; line numbers kept, nothing executed, "
+        "so a function split into "
         "helpers is judged as the one function it is equivalent to; roles (option-spec lookup, converter call, validation loop, result dict, "
         "warnings list, block text, remaining content) are found by data flow, never by name. "
         "R1: inter-procedural exception-escape analysis - only MarkupError can leave parse_directive_text (TokenizeError is caught where it is "
         "raised into, yaml errors incl. the plain ValueError of PyYAML's scalar constructors are caught, the option converter - a foreign callable "
         "looked up in option_spec - runs under `except Exception`); int(<cursor character>) in a tokenizer helper is discharged only by a "
         "caller-side digit test with no cursor movement in between; `assert X is not None` in the consumer loop of the token generator is discharged only "
-        "by a typestate exploration of (producer CFG location x X is None/set) that never reaches the assert with X unset. "
+        "by a typestate exploration of (producer CFG location x X is None/set) that never reaches the assert with X unset; the engine's literal-only "
+        "guards for int(<hex>, 16) / chr(code) / int(ch) are re-applied with module constants folded; `raise C(...).m(...)` typed Exception by the engine is "
+        "re-typed by m's return annotation and discharged only if other origins of that class leave the same function and none reaches the entry. "
         "R2: additional_options flow hop by hop from render_fence (fence_as_directive; value built from token.attrs, also through a helper) to the "
         "merge in the options parser; in the merge the operand holding the tokenized block is the later (winning) one (dict display, |, |=, update, "
         "dict(a, **b), setdefault, M[k] = v with/without `k not in M` / `M.get(k) is None` - a guard on the *truthiness* of the block's value is not an absence "
@@ -64,7 +67,9 @@ META = {
         "result, converter = option_spec[name] - looked up by subscript, as docutils does: `.get()` or a membership test bypass a mapping's __getitem__, "
         "e.g. sphinx.ext.autodoc's DummyOptionSpec) and reports nothing; every return hands back the validated dict, a dict no option value can reach "
         "(flow-aware taint), or is a documented bypass (validate_options=False, docutils TestDirective; guards re-verified). "
-        "R5: no definition of body_offset combines the line count of a string rebuilt with a lossy '\\n'.join with that of another string (origins "
+        "R5: a package helper used to split text into lines is judged by what it does (exact = str.splitlines() or text.split('\\n') minus the one empty "
+        "piece behind a final newline; anything that also drops, strips or filters pieces is reported where its result becomes the body or is counted); "
+        "no definition of body_offset combines the line count of a string rebuilt with a lossy '\\n'.join with that of another string (origins "
         "traced through the parser's result object, inlined helpers, `a or b` / conditional expressions and a module-level dict the result is "
         "memoised in - the lookup key must then mention every parameter the counted string depends on; a line-terminated join is lossless); dropping the leading blank body line "
         "and `offset += 1` are control-equivalent, happen once and only under a blank test on body[0]; the first line is merged in front of the body "
@@ -315,7 +320,10 @@ def _digit_precondition(corpus: Corpus, fq: str, text: str) -> str | None:
             if not (isinstance(dnode, tuple) and dnode[0] in ("T", "F") and isinstance(dnode[1], (ast.If, ast.While))):
                 continue
             for t, pol in split_facts(dnode[1].test, dnode[0] == "T"):
-                if not (pol and isinstance(t, ast.Compare) and len(t.ops) == 1 and isinstance(t.ops[0], ast.In) and isinstance(t.comparators[0], ast.Constant) and isinstance(t.comparators[0].value, str) and t.comparators[0].value and set(t.comparators[0].value) <= DIGITS):
+                if not (pol and isinstance(t, ast.Compare) and len(t.ops) == 1 and isinstance(t.ops[0], ast.In)):
+                    continue
+                ds_ = _const_str(caller, t.comparators[0])
+                if not ds_ or not set(ds_) <= DIGITS:
                     continue
                 left = t.left
                 movers = [a for a in ccfg.nodes if isinstance(a, ast.stmt) and a is not cst and _advancing(a, q)]
@@ -556,34 +564,178 @@ class _Held(Report):
         setattr(self._real, name, value)
 
     def violation(self, rule_id, key, site, what, path=None):
-        mk = "|ValueError|origin=myst_parser.parsers.options:"
-        if mk in key:
-            fq_text = key.split("|origin=", 1)[1]
-            fq, _, text = fq_text.partition("|")
-            if text.startswith("int("):
-                why = _digit_precondition(self._corpus, fq, text)
-                if why:
-                    self._real.ok(rule_id, key, site, "discharged: " + why)
-                    return
-        mk = "|AssertionError|origin=myst_parser.parsers.options:"
-        if mk in key:
-            fq, _, text = key.split("|origin=", 1)[1].partition("|")
-            why = _assert_cannot_fail(self._corpus, fq, text)
-            if why:
-                self._real.ok(rule_id, key, site, "the assertion cannot fail: " + why)
-                return
+        if "|origin=myst_parser.parsers.options:" in key:
+            self.__dict__.setdefault("held", []).append((rule_id, key, site, what, path))
+            return
         self._real.violation(rule_id, key, site, what, path)
+
+    def rejudge(self, analyses) -> None:
+        """Findings whose origin lies in the option tokenizer, re-judged with facts the engine's intra-procedural,
+        literal-only guards do not see (module constants, caller-side preconditions, generator protocol, the class
+        of `raise C(...).method(...)`)."""
+        ea = analyses.get(None) if isinstance(analyses, dict) else None
+        for rule_id, key, site, what, path in self.__dict__.get("held", []):
+            exc = key.split("|")[1]
+            fq, _, text = key.split("|origin=", 1)[1].partition("|")
+            why = None
+            if exc in ("ValueError", "OverflowError") and text.startswith(("int(", "chr(")):
+                why = _scalar_guard(self._corpus, fq, text) or (_digit_precondition(self._corpus, fq, text) if text.startswith("int(") else None)
+            elif exc == "AssertionError":
+                r = _assert_cannot_fail(self._corpus, fq, text)
+                why = "the assertion cannot fail: " + r if r else None
+            elif exc == "Exception" and text.startswith("raise ") and ea is not None:
+                why = _retyped_raise(self._corpus, ea, key.split("|")[0].split("=", 1)[1], fq, text)
+            if why:
+                self._real.ok(rule_id, key, site, "discharged: " + why)
+            else:
+                self._real.violation(rule_id, key, site, what, path)
+
+
+def _const_str(fi: FunctionInfo, e: ast.expr) -> str | None:
+    """A string literal, or a module constant / concatenation of such that evaluates to a string."""
+    try:
+        v = fi.module.eval_const(e)
+    except (Unsupported, AnchorMissing, TypeError):
+        return None
+    return v if isinstance(v, str) else None
+
+
+HEXDIGITS = set("0123456789ABCDEFabcdef")
+
+
+def _find_call(fi: FunctionInfo, text: str) -> ast.Call | None:
+    calls = [c for c in fi.local_nodes() if isinstance(c, ast.Call) and short(c) == text]
+    return calls[0] if len(calls) == 1 else None
+
+
+def _hex_loop(fi: FunctionInfo, call: ast.Call) -> bool:
+    """``int(S.prefix(N), 16)`` preceded in its block by ``for k in range(N): if S.peek(k) not in HEX: raise`` with HEX
+    a (constant-folded) set of hex digits."""
+    if not (dotted(call.func) == "int" and len(call.args) == 2 and isinstance(call.args[1], ast.Constant) and call.args[1].value == 16):
+        return False
+    a0 = call.args[0]
+    if not (isinstance(a0, ast.Call) and isinstance(a0.func, ast.Attribute) and a0.func.attr == "prefix" and len(a0.args) == 1):
+        return False
+    recv, n_text = unparse(a0.func.value), unparse(a0.args[0])
+    st = _stmt(call)
+    blk = block_of(st)
+    if blk is None:
+        return False
+    for prev in blk[: blk.index(st)]:
+        if isinstance(prev, ast.For) and isinstance(prev.iter, ast.Call) and dotted(prev.iter.func) == "range" and len(prev.iter.args) == 1 and unparse(prev.iter.args[0]) == n_text and isinstance(prev.target, ast.Name):
+            kname = prev.target.id
+            for s_ in prev.body:
+                if isinstance(s_, ast.If) and any(isinstance(x, ast.Raise) for x in s_.body):
+                    t = s_.test
+                    if isinstance(t, ast.Compare) and len(t.ops) == 1 and isinstance(t.ops[0], ast.NotIn) and unparse(t.left) == f"{recv}.peek({kname})":
+                        hs = _const_str(fi, t.comparators[0])
+                        if hs and set(hs) <= HEXDIGITS:
+                            return True
+    return False
+
+
+def _scalar_guard(corpus: Corpus, fq: str, text: str) -> str | None:
+    """The engine's discharge shapes for int(<hex>, 16) / chr(code) / int(NAME), with the character sets taken from
+    module constants as well as from literals."""
+    try:
+        fi = corpus.func(fq.replace("myst_parser.", "", 1))
+    except AnchorMissing:
+        return None
+    call = _find_call(fi, text)
+    if call is None:
+        return None
+    d = dotted(call.func)
+    if d == "int" and len(call.args) == 2:
+        return "int(.., 16) is preceded by a loop that raises on the first character outside the (constant-folded) hex digit set" if _hex_loop(fi, call) else None
+    if d == "int" and len(call.args) == 1 and isinstance(call.args[0], ast.Name):
+        name = call.args[0].id
+        cur: ast.AST = call
+        for a in ancestors(call):
+            if isinstance(a, (ast.FunctionDef, ast.Lambda)):
+                break
+            if isinstance(a, ast.If) and cur in a.body:
+                t = a.test
+                if isinstance(t, ast.Compare) and len(t.ops) == 1 and isinstance(t.ops[0], ast.In) and isinstance(t.left, ast.Name) and t.left.id == name:
+                    ds = _const_str(fi, t.comparators[0])
+                    if ds and set(ds) <= DIGITS:
+                        return "int(): the argument is dominated by a membership test in a (constant-folded) digit set"
+            cur = a
+        return None
+    if d == "chr" and len(call.args) == 1 and isinstance(call.args[0], ast.Name):
+        name = call.args[0].id
+        st = _stmt(call)
+        blk = block_of(st)
+        if blk is None:
+            return None
+        upper = nonneg = False
+        for prev in blk[: blk.index(st)]:
+            if isinstance(prev, ast.Assign) and any(isinstance(t_, ast.Name) and t_.id == name for t_ in prev.targets):
+                upper = False
+                nonneg = isinstance(prev.value, ast.Call) and _hex_loop(fi, prev.value)
+            if isinstance(prev, ast.If) and not prev.orelse and prev.body and isinstance(prev.body[-1], ast.Raise):
+                t = prev.test
+                if isinstance(t, ast.Compare) and len(t.ops) == 1 and isinstance(t.left, ast.Name) and t.left.id == name:
+                    try:
+                        c = fi.module.eval_const(t.comparators[0])
+                    except (Unsupported, AnchorMissing):
+                        c = None
+                    if isinstance(c, int) and ((isinstance(t.ops[0], ast.Gt) and c <= 0x10FFFF) or (isinstance(t.ops[0], ast.GtE) and c <= 0x110000)):
+                        upper = True
+        return "chr(): code comes from int(<hex digits>, 16) >= 0 and is preceded by `if code > MAX: raise` with MAX <= 0x10FFFF" if (upper and nonneg) else None
+    return None
+
+
+def _retyped_raise(corpus: Corpus, ea, entry_fq: str, fq: str, text: str) -> str | None:
+    """``raise C(...).m(...)`` that the engine typed as plain Exception: m's return annotation names the class T;
+    the raise is outside any try of its function F, and some T that escapes F does not escape the entry, so a T leaving F
+    is caught on every call chain."""
+    try:
+        fi = corpus.func(fq.replace("myst_parser.", "", 1))
+    except AnchorMissing:
+        return None
+    raises = [n for n in fi.local_nodes() if isinstance(n, ast.Raise) and n.exc is not None and short(n) == text]
+    if len(raises) != 1:
+        return None
+    r = raises[0]
+    e = r.exc
+    if not (isinstance(e, ast.Call) and isinstance(e.func, ast.Attribute) and isinstance(e.func.value, ast.Call)):
+        return None
+    ci = corpus.find_class(fi.module.resolve(dotted(e.func.value.func) or ""))
+    if ci is None:
+        return None
+    meth = corpus.lookup_method(ci, e.func.attr)
+    if meth is None or meth.is_lambda or meth.node.returns is None:
+        return None
+    ann = meth.node.returns
+    if isinstance(ann, ast.Constant) and isinstance(ann.value, str):
+        ann = ast.parse(ann.value, mode="eval").body
+    tci = corpus.find_class(meth.module.resolve(dotted(ann) or ""))
+    if tci is None:
+        return None
+    T = ea.h.canonical(f"{tci.module.name}.{tci.name}")
+    for a in ancestors(r):
+        if isinstance(a, ast.Try):
+            return None
+        if isinstance(a, (ast.FunctionDef, ast.Lambda)):
+            break
+    leaving_f = [x for x in ea.summ.get(fi.fq, ()) if ea.h.canonical(x.exc) == T]
+    at_entry = {x.ident() for x in ea.summ.get(entry_fq, ())}
+    if leaving_f and all(x.ident() not in at_entry for x in leaving_f):
+        return f"`{short(e, 50)}` is a {tci.name} ({ci.name}.{e.func.attr} is annotated to return it); {len(leaving_f)} other {tci.name} origin(s) leave {fi.qualname} the same way and none reaches {entry_fq.split(':')[1]}"
+    return None
 
 
 @rule("C08.R1")
 def r1_failure_mode(corpus: Corpus, rep: Report, tier: str):
-    escape_closure(
+    held = _Held(rep, corpus)
+    analyses = escape_closure(
         corpus,
-        _Held(rep, corpus),
+        held,
         "C08.R1",
         [(None, ENTRY_FQ, [MARKUP_ERROR])],
         "only MarkupError can leave parse_directive_text; the option converter (foreign callable) runs under `except Exception`",
     )
+    held.rejudge(analyses)
     # the converter call, located by role (callable looked up in <directive class>.option_spec), independent of the local's name
     vm = validation_machinery(corpus)
     corpus = vm.corpus
@@ -784,6 +936,115 @@ def _inline_block(stmts: list, helpers: dict, counter: list) -> tuple[list, bool
     return out, changed
 
 
+PURE_CALLS = {
+    "lstrip", "rstrip", "strip", "startswith", "endswith", "lower", "upper", "casefold", "isspace", "isdigit", "isalpha", "isalnum",
+    "removeprefix", "removesuffix", "find", "rfind", "count", "splitlines", "split", "partition", "rpartition", "expandtabs",
+    "len", "bool", "str", "isinstance", "any", "all", "min", "max",
+}
+
+
+def _predicate_helper(fn: ast.FunctionDef) -> tuple[list[str], ast.expr] | None:
+    """(parameters, expression) of a private helper that only computes an expression from its parameters with pure
+    string methods / builtins: straight-line single bindings of locals followed by one ``return <expr>``."""
+    import copy
+
+    if not fn.name.startswith("_") or fn.name.startswith("__") or fn.decorator_list:
+        return None
+    a = fn.args
+    if a.vararg or a.kwarg or a.posonlyargs or a.kwonlyargs or a.defaults:
+        return None
+    body = list(fn.body)
+    if body and isinstance(body[0], ast.Expr) and isinstance(body[0].value, ast.Constant):
+        body = body[1:]
+    if not body or not isinstance(body[-1], ast.Return) or body[-1].value is None:
+        return None
+    env: dict[str, ast.expr] = {}
+
+    def subst(e: ast.expr) -> ast.expr | None:
+        e = copy.deepcopy(e)
+        ok = [True]
+
+        class T(ast.NodeTransformer):
+            def visit_Name(self, n):
+                if isinstance(n.ctx, ast.Load) and n.id in env:
+                    return copy.deepcopy(env[n.id])
+                if not isinstance(n.ctx, ast.Load):
+                    ok[0] = False
+                return n
+
+            def visit_Call(self, n):
+                nm = n.func.attr if isinstance(n.func, ast.Attribute) else (n.func.id if isinstance(n.func, ast.Name) else None)
+                if nm not in PURE_CALLS:
+                    ok[0] = False
+                return self.generic_visit(n)
+
+            def visit_Lambda(self, n):
+                ok[0] = False
+                return n
+
+            def visit_ListComp(self, n):
+                ok[0] = False
+                return n
+
+            visit_GeneratorExp = visit_SetComp = visit_DictComp = visit_NamedExpr = visit_ListComp
+
+        out = T().visit(e)
+        return out if ok[0] else None
+
+    for st in body[:-1]:
+        if not (isinstance(st, ast.Assign) and len(st.targets) == 1 and isinstance(st.targets[0], ast.Name) and st.targets[0].id not in env and st.targets[0].id not in [x.arg for x in a.args]):
+            return None
+        v = subst(st.value)
+        if v is None:
+            return None
+        env[st.targets[0].id] = v
+    ret = subst(body[-1].value)
+    if ret is None:
+        return None
+    return [x.arg for x in a.args], ret
+
+
+def _inline_predicates(tree: ast.Module) -> bool:
+    """Replace calls of predicate helpers by their expression (arguments must be plain names or constants)."""
+    import copy
+
+    preds = {}
+    for fn in tree.body:
+        if isinstance(fn, ast.FunctionDef):
+            r = _predicate_helper(fn)
+            if r is not None:
+                preds[fn.name] = r
+    if not preds:
+        return False
+    changed = [False]
+
+    class T(ast.NodeTransformer):
+        def visit_Call(self, n):
+            self.generic_visit(n)
+            if isinstance(n.func, ast.Name) and n.func.id in preds and not n.keywords and len(n.args) == len(preds[n.func.id][0]) and all(isinstance(x, (ast.Name, ast.Constant)) for x in n.args):
+                params, expr = preds[n.func.id]
+                env = dict(zip(params, n.args))
+                new = copy.deepcopy(expr)
+
+                class S(ast.NodeTransformer):
+                    def visit_Name(self, m_):
+                        if isinstance(m_.ctx, ast.Load) and m_.id in env:
+                            return copy.deepcopy(env[m_.id])
+                        return m_
+
+                new = S().visit(new)
+                for x in ast.walk(new):
+                    ast.copy_location(x, n)
+                changed[0] = True
+                return new
+            return n
+
+    for fn in tree.body:
+        if isinstance(fn, ast.FunctionDef) and fn.name not in preds:
+            T().visit(fn)
+    return changed[0]
+
+
 def inlined(corpus: Corpus) -> Corpus:
     """The corpus with the private single-exit helpers of parsers/directives.py inlined into their callers
     (the entry function parse_directive_text is left alone). The original corpus if there is nothing to inline."""
@@ -795,7 +1056,7 @@ def _build_inlined(corpus: Corpus) -> Corpus:
 
     m = corpus.mod(MOD)
     tree = ast.parse(m.src)
-    any_change = False
+    any_change = _inline_predicates(tree)
     for _ in range(3):
         funcs = [n for n in tree.body if isinstance(n, ast.FunctionDef)]
         helpers = {fn.name: fn for fn in funcs if _single_exit_helper(fn)}
@@ -2275,6 +2536,69 @@ def r4_one_validation_path(corpus: Corpus, rep: Report, tier: str):
 # R5 body offset: lossy round trip + blank-line strip pairing
 
 
+def _line_splitter(fi: FunctionInfo) -> tuple[str, str] | None:
+    """Classify a function by what it does with its single text parameter:
+    ('exact', why)   - returns the '\\n'-separated pieces without a trailing empty piece: `P.splitlines()`, or
+                       `P.split("\\n")` followed by exactly one guarded removal of an empty last piece;
+    ('inexact', why) - splits its parameter into lines but also drops, filters, strips or otherwise changes pieces
+                       (or keeps the phantom empty piece behind a final newline);
+    None             - not a line splitter."""
+    if fi.is_lambda or len([p for p in fi.params if p not in ("self", "cls")]) != 1:
+        return None
+    P = [p for p in fi.params if p not in ("self", "cls")][0]
+    body = list(fi.node.body)
+    if body and isinstance(body[0], ast.Expr) and isinstance(body[0].value, ast.Constant):
+        body = body[1:]
+
+    def split_kind(e: ast.AST) -> str | None:
+        if isinstance(e, ast.Call) and isinstance(e.func, ast.Attribute) and isinstance(e.func.value, ast.Name) and e.func.value.id == P:
+            if e.func.attr == "splitlines" and not e.args and not e.keywords:
+                return "splitlines"
+            if e.func.attr == "split" and len(e.args) == 1 and not e.keywords and isinstance(e.args[0], ast.Constant) and e.args[0].value == "\n":
+                return "split"
+        return None
+
+    if not any(split_kind(n) for st in body for n in ast.walk(st)):
+        return None
+    if len(body) == 1 and isinstance(body[0], ast.Return) and body[0].value is not None:
+        k = split_kind(body[0].value)
+        if k == "splitlines":
+            return ("exact", "returns str.splitlines() of its parameter")
+        if k == "split":
+            return ("inexact", "returns text.split('\\n'), which has a phantom empty last piece when the text ends with a newline")
+        return ("inexact", f"returns `{short(body[0].value, 50)}`, not the plain pieces")
+    if not (len(body) >= 2 and isinstance(body[0], ast.Assign) and len(body[0].targets) == 1 and isinstance(body[0].targets[0], ast.Name) and split_kind(body[0].value) and isinstance(body[-1], ast.Return)):
+        return ("inexact", "splits its parameter but not in the recognised straight-line shape")
+    L = body[0].targets[0].id
+    kind = split_kind(body[0].value)
+    if not (isinstance(body[-1].value, ast.Name) and body[-1].value.id == L):
+        return ("inexact", f"returns `{short(body[-1].value, 50) if body[-1].value is not None else None}` instead of the pieces")
+    drops = 0
+    for st in body[1:-1]:
+        ok = False
+        if isinstance(st, ast.If) and not st.orelse and len(st.body) == 1:
+            facts_ = split_facts(st.test, True)
+            last_empty = any(
+                (not pol and unparse(t) == f"{L}[-1]") or (pol and isinstance(t, ast.Compare) and len(t.ops) == 1 and isinstance(t.ops[0], ast.Eq) and unparse(t.left) == f"{L}[-1]" and isinstance(t.comparators[0], ast.Constant) and t.comparators[0].value == "")
+                for t, pol in facts_
+            )
+            others = [t for t, pol in facts_ if not ((not pol and unparse(t) == f"{L}[-1]") or (pol and unparse(t) == L) or (pol and isinstance(t, ast.Compare) and unparse(t.left) == f"{L}[-1]"))]
+            b0 = st.body[0]
+            pop = (isinstance(b0, ast.Expr) and isinstance(b0.value, ast.Call) and unparse(b0.value) in (f"{L}.pop()", f"{L}.pop(-1)")) or (isinstance(b0, ast.Delete) and unparse(b0) == f"del {L}[-1]") or (isinstance(b0, ast.Assign) and unparse(b0) == f"{L} = {L}[:-1]")
+            if last_empty and pop and not others:
+                drops += 1
+                ok = True
+        if not ok:
+            return ("inexact", f"`{short(st, 50)}` changes the pieces beyond removing the one empty piece behind a final newline")
+    if kind == "split" and drops == 1:
+        return ("exact", "text.split('\\n') minus the one empty piece behind a final newline")
+    if kind == "splitlines" and drops == 0:
+        return ("exact", "str.splitlines() of its parameter")
+    if kind == "split":
+        return ("inexact", "text.split('\\n') keeps a phantom empty last piece / removes more than one piece")
+    return ("inexact", "removes a real (empty) last line from str.splitlines()")
+
+
 class StrOrigin:
     """Where a string (or the string a line list / count was taken from) comes from."""
 
@@ -2455,6 +2779,16 @@ class StrOrigin:
             return None
         if isinstance(e, ast.Call) and isinstance(e.func, ast.Attribute) and e.func.attr == "splitlines":
             return self.string(e.func.value, fi)
+        if isinstance(e, ast.Call) and len(e.args) == 1 and not e.keywords and not (isinstance(e.func, ast.Attribute) and e.func.attr in ("join",)):
+            # a package helper that splits its argument into lines, judged by what it does
+            ts = [t for t in self.g.resolve_call(e, fi) if isinstance(t, FunctionInfo)]
+            kinds = [_line_splitter(t) for t in ts]
+            if ts and all(k is not None for k in kinds):
+                out_ = set(self.string(e.args[0], fi))
+                for t, k in zip(ts, kinds):
+                    if k[0] == "inexact":
+                        out_.add(f"inexact-split:{t.qualname}: {k[1]}")
+                return out_
         if isinstance(e, ast.Name):
             out: set[str] = set()
             found = False
@@ -2619,6 +2953,18 @@ def r5_body_offset(corpus: Corpus, rep: Report, tier: str):
             if "unknown" in lo or "unknown" in ro:
                 rep.error("C08.R5", f"{site}: cannot trace the strings whose lines are counted in `{short(b, 60)}`")
                 continue
+            inexact = sorted(t.split(":", 1)[1] for t in (lo | ro) if t.startswith("inexact-split:"))
+            if inexact:
+                rep.violation(
+                    "C08.R5",
+                    k,
+                    site,
+                    f"`{short(b, 70)}` counts lines produced by a helper that does more than split at line ends ({inexact[0]}): "
+                    "the count no longer equals the number of content lines, so the reported offset is wrong whenever the helper drops or adds a piece",
+                )
+                continue
+            lo = {t for t in lo if not t.startswith("inexact-split:")}
+            ro = {t for t in ro if not t.startswith("inexact-split:")}
             stale = sorted(t.split(":", 1)[1] for t in (lo | ro) if t.startswith("stale-cache:"))
             if stale:
                 rep.violation(
@@ -2718,8 +3064,17 @@ def r5_body_offset(corpus: Corpus, rep: Report, tier: str):
             v = st.value
             if v is None:
                 continue
-            if so.lines(v, entry) is not None and not (isinstance(v, ast.Name)):
-                continue  # (re)definition from `<string>.splitlines()`: where the body comes from
+            lv = so.lines(v, entry) if not isinstance(v, ast.Name) else None
+            if lv is not None:
+                bad_ = sorted(t.split(":", 1)[1] for t in lv if t.startswith("inexact-split:"))
+                if bad_:
+                    rep.violation(
+                        "C08.R5",
+                        f"{entry.fq}|the body lines are split from the content without loss|{short(st, 60)}",
+                        site,
+                        f"`{short(st, 60)}` builds the body with a helper that does more than split at line ends ({bad_[0]}): the body is not exactly the content lines behind the option block",
+                    )
+                continue  # (re)definition from a line split of a string: where the body comes from
             if BODY not in names_in(v):
                 if isinstance(v, (ast.List, ast.Tuple)) and not v.elts:
                     continue
@@ -3110,7 +3465,7 @@ def mutants(corpus: Corpus):
     for mid, node in (("c08-lossy-join-colon-style", cj), ("c08-lossy-join-dash-style", dj)):
         if node is not None and isinstance(node.value.args[0], (ast.GeneratorExp, ast.ListComp)):
             it = node.value.args[0].generators[0].iter
-            add(mid, "C08.R5", splice(src, node.value, f'"\\n".join({ast.get_source_segment(src, it)})'), "content_offset = len(content.splitlines()) - len(body_lines)", note="reverts 2629f06 (F12)")
+            add(mid, "C08.R5", splice(src, node.value, f'"\\n".join({ast.get_source_segment(src, it)})'), "|content_offset = len(", note="reverts 2629f06 (F12)")
         else:
             out.append((mid, "terminated-lines join not found"))
     # the first-line merge guarded by a test that a whitespace-only line passes
@@ -3212,9 +3567,25 @@ def mutants(corpus: Corpus):
         memo = f"key = (directive_class, validate_options, str(additional_options))\n{ind}{rn} = _C08_CACHE.get(key) or {call_src}\n{ind}_C08_CACHE[key] = {rn}"
         new = splice(src, ra, memo)
         new = new.replace("\ndef parse_directive_text(", "\n_C08_CACHE: dict = {}\n\n\ndef parse_directive_text(", 1)
-        add("c08-options-memoised-without-content-key", "C08.R5", new, "content_offset = len(content.splitlines()) - len(body_lines)")
+        add("c08-options-memoised-without-content-key", "C08.R5", new, "|content_offset = len(")
     else:
         out.append(("c08-options-memoised-without-content-key", "assignment of the options-parser result not found"))
+    # ---- class: the line-splitting helper also drops / strips / filters pieces (R5)
+    sp = None
+    for c_ in ft.local_nodes():
+        if isinstance(c_, ast.Call) and isinstance(c_.func, ast.Name) and c_.func.id in m.functions and _line_splitter(m.functions[c_.func.id]) and _line_splitter(m.functions[c_.func.id])[0] == "exact":
+            sp = m.functions[c_.func.id]
+            break
+    if sp is not None and isinstance(sp.node.body[-1], ast.Return) and isinstance(sp.node.body[-1].value, ast.Name):
+        rret = sp.node.body[-1]
+        L_ = rret.value.id
+        ind = indent_of(sp, rret)
+        add("c08-splitter-filters-blank-lines", "C08.R5", splice(src, rret, f"{L_} = [ln for ln in {L_} if ln.strip()]\n{ind}return {L_}"), "inexact" if False else "does more than split")
+        add("c08-splitter-strips-lines", "C08.R5", splice(src, rret.value, f"[ln.rstrip() for ln in {L_}]"), "does more than split")
+        tif = find_node(sp, lambda n: isinstance(n, ast.If))
+        add("c08-splitter-drops-all-trailing-blank-lines", "C08.R5", splice(src, tif, "while " + ast.get_source_segment(src, tif)[3:].replace(f"not {L_}[-1]", f"{L_} and not {L_}[-1]", 1)) if tif is not None else None, "does more than split")
+    else:
+        out.append(("c08-splitter-filters-blank-lines", "no module-level exact line splitter is called in parse_directive_text"))
     # ---- R6 -------------------------------------------------------------------
     rx = find_node(fo, lambda n: isinstance(n, ast.Call) and unparse(n.func) == "re.search" and n.args and isinstance(n.args[0], ast.Constant))
     if rx is not None:
